@@ -65,8 +65,10 @@ def _trim_cache(keep):
     except OSError:
         return
     ents.sort(reverse=True)
-    for _, d in ents[12:]:
-        if d != keep:
+    # a concurrently running check may still use an older build: only builds untouched for three hours are dropped
+    now = time.time()
+    for mt, d in ents[40:]:
+        if d != keep and now - mt > 3 * 3600:
             shutil.rmtree(os.path.join(CACHE, d), ignore_errors=True)
 
 
